@@ -65,6 +65,7 @@ func (gw *parallelGateway) run(ctx context.Context, sender tracing.ISenderHandle
 		case msg := <-gw.mch:
 			switch m := msg.(type) {
 			case nextActionMessage:
+				verifAt("and.arrive")
 				gw.reportedIncomingFlows++
 				gw.awaitingActions = append(gw.awaitingActions, m.response)
 				gw.flowWhenReady()
